@@ -34,7 +34,7 @@ def _basins(rng, present):
 
 
 def gen(rng, tier):
-    n = 1500 if tier == 'quick' else 20000
+    n = G.budget(1500) if tier == 'quick' else 20000
     for _ in range(n):
         labs, akind = G.alphabet(rng, k=rng.randint(2, 6))
         form = rng.choice(['loa', 'loa', 'lol', 'arr1', 'list', 'obj', 'arr2'])
